@@ -368,6 +368,60 @@ fn explore_one(h: &Harness, bound: usize, delay_bounded: bool, deadline: Instant
     (st.executions, st.decisions, outs)
 }
 
+/// Caller counts at the boundary of the 16-bit waiter counter (65535, 65536, 65537 callers of one flight), each on the
+/// default schedule of a current-thread tokio runtime: every caller is spawned before the first one is polled, so all
+/// of them have joined the flight when its task completes.  One schedule per count — the dimension explored here is
+/// the NUMBER of callers, not their interleaving (that is what the E1 harnesses above are for).
+fn crowd(n: usize, out: &mut Partial) {
+    let rt = tokio::runtime::Builder::new_current_thread().enable_all().build().unwrap();
+    let g: Arc<Group<usize, String>> = Arc::new(Group::new());
+    let ran = Arc::new(AtomicUsize::new(0));
+    let good = Arc::new(AtomicUsize::new(0));
+    let bad = Arc::new(AtomicUsize::new(0));
+    let owners = Arc::new(AtomicUsize::new(0));
+    let (ran2, good2, bad2, owners2) = (ran.clone(), good.clone(), bad.clone(), owners.clone());
+    let timed_out = rt.block_on(async move {
+        let mut hs = Vec::with_capacity(n);
+        for _ in 0..n {
+            let (g, ran, good, bad, owners) = (g.clone(), ran2.clone(), good2.clone(), bad2.clone(), owners2.clone());
+            hs.push(tokio::spawn(async move {
+                let (r, owner) = g
+                    .work("crowd", async move {
+                        ran.fetch_add(1, Ordering::SeqCst);
+                        tokio::task::yield_now().await;
+                        Ok::<usize, String>(7)
+                    })
+                    .await;
+                if owner {
+                    owners.fetch_add(1, Ordering::SeqCst);
+                }
+                if matches!(r, Ok(7)) {
+                    good.fetch_add(1, Ordering::SeqCst);
+                } else {
+                    bad.fetch_add(1, Ordering::SeqCst);
+                }
+            }));
+        }
+        tokio::time::timeout(Duration::from_secs(20), futures::future::join_all(hs)).await.is_err()
+    });
+    out.count("crowd_runs", 1);
+    out.count("crowd_callers", n as u64);
+    let (ran, good, bad, owners) = (ran.load(Ordering::SeqCst), good.load(Ordering::SeqCst), bad.load(Ordering::SeqCst), owners.load(Ordering::SeqCst));
+    let replay = json!({"crowd": n});
+    if timed_out || good + bad != n {
+        out.violation("C20/caller-never-returned@crowd", format!("{n} callers of one flight: only {} came back within 20 s (tasks executed: {ran})", good + bad), replay.clone());
+    } else if bad > 0 {
+        out.violation("C20/waiter-wrong-outcome@crowd", format!("{n} callers of one flight: {bad} did not receive the task's value"), replay.clone());
+    }
+    if ran != owners || ran == 0 {
+        out.violation("C20/executed-tasks-differ-from-owners@crowd", format!("{n} callers: {ran} tasks executed, {owners} owners"), replay);
+    }
+    if ran == 1 && good == n {
+        out.count("vac:crowd_flights_with_one_task_for_all_callers", 1);
+    }
+    std::mem::forget(rt); // dropping a runtime with parked tasks of a hung flight would block; nothing is left on success
+}
+
 /// Free-running pass on real tokio runtimes: informational binding of the spawn replacement.
 fn free_run(h: &Harness, explored: &std::collections::BTreeSet<String>, out: &mut Partial, multi: bool, runs: usize) {
     for _ in 0..runs {
@@ -452,6 +506,14 @@ fn main() {
 
     if let Some(rp) = &args.replay {
         let v: Value = serde_json::from_slice(&std::fs::read(rp).unwrap_or_else(|e| machinery_error(&format!("read replay: {e}")))).unwrap_or_else(|e| machinery_error(&format!("parse: {e}")));
+        if let Some(n) = v["replay"]["crowd"].as_u64() {
+            crowd(n as usize, &mut out);
+            run.set("states", json!(1));
+            run.set("transitions", json!(1));
+            run.set("traces_validated_against_impl", json!(1));
+            run.all = out;
+            run.finish(1, "replay of one crowd run", false);
+        }
         let h = Harness::from_json(&v["replay"]["harness"]);
         let choices: Vec<usize> = v["replay"]["choices"].as_array().map(|a| a.iter().map(|x| x.as_u64().unwrap_or(0) as usize).collect()).unwrap_or_default();
         let hist: Hist = Arc::new(Mutex::new(vec![]));
@@ -531,6 +593,10 @@ fn main() {
         explored_sets.push((i, outs));
         out.merge(p);
         machinery.extend(m);
+    }
+    // boundary caller counts on the default schedule
+    for n in [65535usize, 65536, 65537] {
+        crowd(n, &mut out);
     }
     // informational free-running pass (binds the spawn replacement to tokio's behaviour)
     let fr = tier.pick(10, 100);
